@@ -160,6 +160,11 @@ func Eq(a, b Term) Term {
 	if a.S == b.S {
 		return TTrue
 	}
+	if x, ok := intVal(a); ok {
+		if y, ok := intVal(b); ok {
+			return BoolLit(x == y)
+		}
+	}
 	if !sortCompat(a.Sort, b.Sort) {
 		panic(fmt.Sprintf("Eq: sort mismatch %s:%s vs %s:%s", a.S, a.Sort, b.S, b.Sort))
 	}
@@ -184,13 +189,51 @@ func Ite(c, a, b Term) Term {
 	return app(a.Sort, "ite", c, a, b)
 }
 
-func Add(a, b Term) Term { return app(SInt, "+", a, b) }
-func Sub(a, b Term) Term { return app(SInt, "-", a, b) }
+// intVal recognises integer literals.
+func intVal(t Term) (int64, bool) {
+	s := t.S
+	if strings.HasPrefix(s, "(- ") && strings.HasSuffix(s, ")") {
+		if v, err := strconv.ParseInt(s[3:len(s)-1], 10, 64); err == nil {
+			return -v, true
+		}
+		return 0, false
+	}
+	if s == "" || s[0] < '0' || s[0] > '9' {
+		return 0, false
+	}
+	v, err := strconv.ParseInt(s, 10, 64)
+	return v, err == nil
+}
+
+func Add(a, b Term) Term {
+	if x, ok := intVal(a); ok {
+		if y, ok := intVal(b); ok {
+			return IntLit(x + y)
+		}
+	}
+	return app(SInt, "+", a, b)
+}
+func Sub(a, b Term) Term {
+	if x, ok := intVal(a); ok {
+		if y, ok := intVal(b); ok {
+			return IntLit(x - y)
+		}
+	}
+	return app(SInt, "-", a, b)
+}
 func Mul(a, b Term) Term { return app(SInt, "*", a, b) }
-func Lt(a, b Term) Term  { return app(SBool, "<", a, b) }
-func Le(a, b Term) Term  { return app(SBool, "<=", a, b) }
-func Gt(a, b Term) Term  { return app(SBool, ">", a, b) }
-func Ge(a, b Term) Term  { return app(SBool, ">=", a, b) }
+func cmpFold(op string, a, b Term, f func(x, y int64) bool) Term {
+	if x, ok := intVal(a); ok {
+		if y, ok := intVal(b); ok {
+			return BoolLit(f(x, y))
+		}
+	}
+	return app(SBool, op, a, b)
+}
+func Lt(a, b Term) Term { return cmpFold("<", a, b, func(x, y int64) bool { return x < y }) }
+func Le(a, b Term) Term { return cmpFold("<=", a, b, func(x, y int64) bool { return x <= y }) }
+func Gt(a, b Term) Term { return cmpFold(">", a, b, func(x, y int64) bool { return x > y }) }
+func Ge(a, b Term) Term { return cmpFold(">=", a, b, func(x, y int64) bool { return x >= y }) }
 
 // elemSort extracts the element sort of an (Array I E) sort.
 func (s Sort) arrayParts() (Sort, Sort) {
@@ -246,9 +289,53 @@ func ConstArray(s Sort, v Term) Term {
 }
 
 // Slice helpers (datatype Slice = mk_slice(arr,len,cap)).
-func SliceArr(s Term) Term { return app(SInt, "sl_arr", s) }
-func SliceLen(s Term) Term { return app(SInt, "sl_len", s) }
-func SliceCap(s Term) Term { return app(SInt, "sl_cap", s) }
+// mkSliceParts splits a literal (mk_slice a l c) term.
+func mkSliceParts(s Term) ([3]string, bool) {
+	var out [3]string
+	str := s.S
+	if !strings.HasPrefix(str, "(mk_slice ") || !strings.HasSuffix(str, ")") {
+		return out, false
+	}
+	body := str[len("(mk_slice ") : len(str)-1]
+	depth, start, n := 0, 0, 0
+	for i := 0; i <= len(body); i++ {
+		if i == len(body) || (body[i] == ' ' && depth == 0) {
+			if n > 2 {
+				return out, false
+			}
+			out[n] = body[start:i]
+			n++
+			start = i + 1
+			continue
+		}
+		switch body[i] {
+		case '(':
+			depth++
+		case ')':
+			depth--
+		}
+	}
+	return out, n == 3
+}
+
+func SliceArr(s Term) Term {
+	if p, ok := mkSliceParts(s); ok {
+		return Term{p[0], SInt}
+	}
+	return app(SInt, "sl_arr", s)
+}
+func SliceLen(s Term) Term {
+	if p, ok := mkSliceParts(s); ok {
+		return Term{p[1], SInt}
+	}
+	return app(SInt, "sl_len", s)
+}
+func SliceCap(s Term) Term {
+	if p, ok := mkSliceParts(s); ok {
+		return Term{p[2], SInt}
+	}
+	return app(SInt, "sl_cap", s)
+}
 func MkSlice(arr, ln, cp Term) Term {
 	return app(SSlice, "mk_slice", arr, ln, cp)
 }
